@@ -162,9 +162,11 @@ Section Subst.
   Definition s_set_info : str := [115;101;116;45;105;110;102;111]%N.    (* set-info *)
   Definition s_set_logic : str := [115;101;116;45;108;111;103;105;99]%N. (* set-logic *)
 
+  (* a top-level comment (a leaf whose text starts with ';') belongs to the prefix as well (F70) *)
   Definition is_prefix_cmd (e : node) : bool :=
     match e with
     | NT _ _ (NL _ s :: _) => str_eqb s s_set_info || str_eqb s s_set_logic
+    | NL _ (59%N :: _) => true
     | _ => false
     end.
   Fixpoint prefix_len (l : list node) : nat :=
